@@ -1,4 +1,6 @@
 """C02 - new: NewT stores each argument in the field it is named after."""
+import re
+
 from vlib import core, newgen, pkgrun, xferleg
 
 PROP = "C02"
@@ -50,7 +52,13 @@ def gen_cases(ctx):
             opts = {"nested_underscore": 0.5, "nested_tagskip": 0.2}   # finding region shapes
         elif r < 0.2:
             opts = {"keyword": 0.5}
+        if r > 0.93:
+            opts = dict(opts, generic=0.0)
         s = g.top("T", **opts)
+        if r > 0.93:
+            # generic struct with a constraint that is not a plain identifier (finding region F_tparamNonIdent)
+            s["tparams"] = ctx.rng.choice([[(["K"], "cmp.Ordered")], [(["K"], "~int | ~string"), (["V"], "any")],
+                                           [(["V"], "any"), (["S"], "fmt.Stringer")]])
         cases.append(make_case("n%d" % i, s))
     return cases
 
@@ -67,6 +75,10 @@ def run_cases(ctx, cases):
         im["exit"] = str(r["runs"][0]["rc"])
         im["compile"] = r["compile"] if r["compile"] == "ok" else "error"
         im.pop("ptypes", None)
+        src = "\n".join(r["written"].values())
+        mm = re.search(r"^func New%s(?:\[(.*?)\])?\(" % re.escape(c["spec"]["name"]), src, flags=re.M)
+        if mm is not None:
+            im["tparams"] = mm.group(1) or ""
         impl[c["id"]] = im
         c["detail"] = {"stderr": r["runs"][0]["stderr"][-600:], "compile": r["compile"],
                        "generated": {k: v for k, v in r["written"].items()}}
@@ -79,6 +91,11 @@ def run_cases(ctx, cases):
             d = m[side]
             d["exit"] = "0"
             d["compile"] = "ok"
+            if side == "model" and m["region"] == "F_tparamNonIdent":
+                # the model mirrors the wrong type-parameter list; the consequence (compile error) replaces the run-time lines
+                tp = d.get("tparams", "")
+                d.clear()
+                d.update({"exit": "0", "compile": "error", "tparams": tp})
             for k in list(d):
                 if k.startswith("leaf:") and c["types"].get(k[5:]) == "bool" and d[k].startswith("arg"):
                     d[k] = "argbool"
